@@ -51,6 +51,18 @@ CHECKS = {
             "and switch/flag variants; accepted methods are pushed through the interpreter and both generators; a 20 s alarm per case decides 'never hangs'. Exhaustive below the bound, sampled above.",
             "Ids unique within a phase; trivial statements so only dependency resolution can fail downstream; liveness only as a bound.",
             "DESIGN.md 2/C10"),
+    "C05": ("Hypothesis-generated hand-written and builder-made phases x ALL guard valuations; oracle = independent trace walker + recording generic backend walker + independent graph closure; container-order metamorphic relation",
+            "create_ast_from_phase is checked on random DAGs (ids uncorrelated with edges; guards over <= 4 flags incl. stacked negations and constants; loop nests incl. triangular ones; Nops) under every valuation: executed leaves = "
+            "non-Nop statements whose guard holds, once each, inside exactly their declared loops (nest order constrained only where a bound uses another counter), ordered consistently with the transitive dependency closure, accepted "
+            "by the walker all back ends share, and structurally identical for 6 storage orders incl. frozenset. Exhaustive over valuations, sampled over phases.",
+            "Trace semantics of guards as free flags; loops compared as sets as the documentation allows.",
+            "DESIGN.md 2/C05"),
+    "C07": ("Hypothesis-generated programs lowered and rewritten by each pass alone and in the Fortran order; oracle = independent value-mode tree walker (values of original variables, multiset of external calls, no read-before-set, unique ids)",
+            "Each phase of generated programs (nested calls, nested conditional expressions, self-updates, loops, guards, user names resembling generated temporaries) is lowered, rewritten by 5 pipelines and executed by my walker from 2 "
+            "valuations taken at phase entry in a reference run; a hand-made variant (suffix of the phase with statement-level guards, optionally hand-written guard expressions, prefix variables as read-only inputs) goes through the same "
+            "pipelines. Sampled. One defect (calls hoisted out of conditional-expression branches) is pinned as a known finding and its shape excluded by construction.",
+            "Tree meaning = what structured back ends make of it (node guards/loops; wrapped statements unconditional); user functions pure; exact arithmetic.",
+            "DESIGN.md 2/C07"),
     "C06": ("exhaustive enumeration of small trees + Hypothesis random trees; oracle = guarded-trace equality under all flag valuations",
             "Every tree with <=5 (quick) / <=7 (thorough) nodes over {Block, IfThen, IfThenElse, leaf, Null} x 6 condition forms is "
             "simplified and compared with the original by an independent trace walker under all valuations, plus random larger trees "
